@@ -11,12 +11,12 @@ pub static DEF: CheckDef = CheckDef {
     id: "C15",
     run,
     replay,
-    rule: "proptest frames: VRAM from a seed in three styles (arbitrary bytes; sparse tile data with small map alphabets; solid / striped tiles), OAM of 0-40 generated objects (Y and X biased to the screen edges, to X in 1..7 and 161..167, to one shared line so that more than ten compete, to equal X; any tile and attribute byte), SCX/SCY any, WX in {0..6, 7..166, 167..255}, WY any (biased to 0..143), BGP/OBP0/OBP1 any, LCDC bits 1-6 any with bits 0 and 7 set, all held constant over the frame. In two cases out of five one or two earlier frames with other LCDC / scroll / window / OAM contents are presented first (registers and OAM rewritten at the start of the vertical blank), and the measured frame must not depend on them. The machine is driven from power-on through the frame(s) (70224 clocks each) twice - in 4-clock batches and in generated larger batches - and the buffer presented at VBlank is compared pixel by pixel with the reference composition (models::ppu); both runs must also agree with each other. Non-trivial = frame with window pixels visible, an object pixel visible, a BG-over-OBJ pixel, a line with more than ten candidate objects, a flipped or 8x16 object pixel, or overlapping objects (measured on the reference); distinct by hash of the case.",
+    rule: "proptest frames: VRAM from a seed in three styles (arbitrary bytes; sparse tile data with small map alphabets; solid / striped tiles), OAM of 0-40 generated objects (Y and X biased to the screen edges, to X in 1..7 and 161..167, to one shared line so that more than ten compete, to equal X; any tile and attribute byte), SCX/SCY any, WX in {0..6, 7..166, 167..255}, WY any (biased to 0..143), BGP/OBP0/OBP1 any, LCDC bits 1-6 any with bits 0 and 7 set, all held constant over the frame. In two cases out of five one or two earlier frames with other LCDC / scroll / window / OAM contents are presented first (registers and OAM rewritten at the start of the vertical blank), and the measured frame must not depend on them. The machine is driven from power-on through the frame(s) (70224 clocks each) twice - in 4-clock batches and in generated larger batches - and the buffer presented at VBlank is compared pixel by pixel with the reference composition (models::ppu); both runs must also agree with each other. Whole-core layer: the scene is built by a guest program (tile data and maps copied from ROM into video RAM, the object table stored into OAM directly or moved there by OAM DMA, the registers written, then HALT with every source disabled) executed by update() of the interpreter build, block-stepped on the interpreter build and block-stepped on the jit build; two frames later the presented buffer must be the reference composition of that scene. Non-trivial = frame with window pixels visible, an object pixel visible, a BG-over-OBJ pixel, a line with more than ten candidate objects, a flipped or 8x16 object pixel, or overlapping objects (measured on the reference); distinct by hash of the case.",
     assumptions: &[
         "models::ppu: first ten objects in OAM order whose rows cover the line regardless of X; lowest X then lowest OAM index; the first non-transparent object pixel decides and carries its own BG-over-OBJ bit; window where LCDC.5 and y >= WY and x+7 >= WX and WX <= 166, its row counted as y - WY; signed tile addressing when LCDC.4 = 0; 8x16 objects ignore bit 0 of the tile index",
         "registers, VRAM and OAM constant over the frame; LCD and BG enabled (LCDC bits 7 and 0 set); DMG window glitches at WX = 0 / 166 are out of scope",
     ],
-    required_classes: &["window-visible", "object-visible", "bg-over-obj", "more-than-ten-on-a-line", "flipped-object", "tall-object", "overlapping-objects", "object-partly-off-screen", "wx-below-7", "wx-above-166", "signed-tile-addressing", "after-earlier-frames", "objects-switched-off-between-frames", "window-switched-off-between-frames"],
+    required_classes: &["window-visible", "object-visible", "bg-over-obj", "more-than-ten-on-a-line", "flipped-object", "tall-object", "overlapping-objects", "object-partly-off-screen", "wx-below-7", "wx-above-166", "signed-tile-addressing", "after-earlier-frames", "objects-switched-off-between-frames", "window-switched-off-between-frames", "core-frame", "core-frame-oam-by-dma", "core-frame-jit-blocks"],
     exhaustive: false,
 };
 
@@ -336,6 +336,120 @@ fn case_strategy() -> impl Strategy<Value = Case> {
         .prop_map(|((vram_seed, vram_kind, oam), (lcdc, scx, scy, wx, wy), (bgp, obp0, obp1, cuts), pre)| Case { vram_seed, vram_kind, oam, lcdc: lcdc | 0x81, scx, scy, wx, wy, bgp, obp0, obp1, cuts, pre })
 }
 
+// ---------------------------------------------------------------------------
+// whole-core layer: the guest program itself builds the scene
+
+/// A ROM whose program copies the tile data and maps from ROM bank 1 into video RAM, the
+/// object table into OAM (directly, or into work RAM and from there by OAM DMA), writes the
+/// LCD registers and then halts with every interrupt source disabled.
+fn scene_rom(c: &Case, vram: &[u8], oam: &[u8], via_dma: bool) -> crate::rom::RomImage {
+    let mut rom = std_rom();
+    rom.bytes[0x4000..0x6000].copy_from_slice(vram);
+    rom.bytes[0x3000..0x30a0].copy_from_slice(oam);
+    let mut p: Vec<u8> = vec![0xf3, 0x31, 0xf0, 0xdf];
+    // LD HL,0x4000; LD DE,0x8000; LD BC,0x2000; L: LD A,(HL+); LD (DE),A; INC DE; DEC BC; LD A,B; OR C; JR NZ,L
+    p.extend([0x21, 0x00, 0x40, 0x11, 0x00, 0x80, 0x01, 0x00, 0x20, 0x2a, 0x12, 0x13, 0x0b, 0x78, 0xb1, 0x20, 0xf8]);
+    // LD HL,0x3000; LD DE,dst; LD B,160; L: LD A,(HL+); LD (DE),A; INC DE; DEC B; JR NZ,L
+    let dst: u16 = if via_dma { 0xc100 } else { 0xfe00 };
+    p.extend([0x21, 0x00, 0x30, 0x11, dst as u8, (dst >> 8) as u8, 0x06, 0xa0, 0x2a, 0x12, 0x13, 0x05, 0x20, 0xfa]);
+    if via_dma {
+        // LD A,0xC1; LDH (46),A; LD A,0x30; L: DEC A; JR NZ,L
+        p.extend([0x3e, 0xc1, 0xe0, 0x46, 0x3e, 0x30, 0x3d, 0x20, 0xfd]);
+    }
+    for (reg, v) in [(0x42u8, c.scy), (0x43, c.scx), (0x47, c.bgp), (0x48, c.obp0), (0x49, c.obp1), (0x4a, c.wy), (0x4b, c.wx), (0x40, c.lcdc | 0x81)] {
+        p.extend([0x3e, v, 0xe0, reg]);
+    }
+    // IF = IE = 0; HALT; NOP; JR back to the HALT
+    p.extend([0xaf, 0xe0, 0x0f, 0xe0, 0xff, 0x76, 0x00, 0x18, 0xfc]);
+    rom.bytes[0x100..0x104].copy_from_slice(&[0x00, 0xc3, 0x50, 0x01]);
+    rom.bytes[0x150..0x150 + p.len()].copy_from_slice(&p);
+    rom.fix_checksum();
+    rom
+}
+
+fn core_json(c: &Case, mode: u8, via_dma: bool) -> Value {
+    json!({"kind": "core-frame", "mode": mode, "via_dma": via_dma, "case": c})
+}
+
+/// mode 0: interpreter build, update() per instruction; 1: interpreter build, block-stepped;
+/// 2: jit build, block-stepped
+fn exec_core(c: &Case, mode: u8, via_dma: bool, rec: &mut Rec, counting: bool) -> CaseResult {
+    use crate::mach::{j, RUN};
+    let vram = build_vram(c);
+    let oam = build_oam(c);
+    let rom = scene_rom(c, &vram, &oam, via_dma);
+    let mut boxed: Box<dyn Emu> = if mode == 2 { Box::new(j::M::new(&rom)) } else { Box::new(i::M::new(&rom)) };
+    let a: &mut dyn Emu = &mut *boxed;
+    let r = guarded(|| {
+        let mut steps = 0u32;
+        while a.run_state() == RUN && steps < 200_000 {
+            if mode == 0 {
+                a.step_update();
+            } else {
+                a.step_block();
+            }
+            steps += 1;
+        }
+        let halted = a.run_state() != RUN;
+        // two whole frames and a bit, one machine cycle per step
+        for _ in 0..(2 * 70224 / 4 + 600) {
+            a.step_update();
+        }
+        halted
+    });
+    let halted = match r {
+        Ok(h) => h,
+        Err(msg) => return Err(Fail::new("core-panic", format!("the scene program panicked the core: {}", msg))),
+    };
+    let regions = a.regions();
+    let get = |n: &str| regions.iter().find(|(k, _)| *k == n).map(|(_, b)| b.to_vec()).unwrap_or_default();
+    let (cv, co, frame) = (get("vram"), get("oam"), get("frame_visible"));
+    if counting {
+        rec.eval(1);
+        rec.class("core-frame", 1);
+        rec.class(["core-frame-update", "core-frame-interpreter-blocks", "core-frame-jit-blocks"][mode as usize % 3], 1);
+        if via_dma {
+            rec.class("core-frame-oam-by-dma", 1);
+        }
+    }
+    if !halted || cv[..] != vram[..] || co[..160] != oam[..160] {
+        // the scene did not arrive in video RAM / OAM as written: C10 / C16 / C04 judge that
+        if counting {
+            rec.class("core-frame-scene-not-as-written (not judged here)", 1);
+        }
+        return Ok(());
+    }
+    let regs = regs_of(c);
+    let (want, st) = render(&vram, &oam, &regs);
+    if counting && (st.window_pixels > 0 || st.object_pixels > 0) {
+        rec.nontrivial(fnv(format!("core{}{}{:?}", mode, via_dma, c).as_bytes()));
+    }
+    if let Some(k) = (0..W * H).find(|k| frame[*k] != want[*k]) {
+        let (x, y) = (k % W, k / W);
+        let layers = describe(c, &vram, &oam, x, y);
+        let ndiff = (0..W * H).filter(|k| frame[*k] != want[*k]).count();
+        let sig = if layers.contains("object") { "core-pixel-object" } else if layers.starts_with("window") { "core-pixel-window" } else { "core-pixel-background" };
+        return Err(Fail::new(sig, format!("scene built by the guest program ({}, OAM {}), two frames later: pixel ({}, {}) of the presented frame is shade {}, reference {} ({} pixels differ); layers there: {}; LCDC={:#04x} SCX={} SCY={} WX={} WY={}", ["interpreter, update()", "interpreter, block-stepped", "jit, block-stepped"][mode as usize % 3], if via_dma { "by DMA" } else { "stored directly" }, x, y, frame[k], want[k], ndiff, layers, regs.lcdc, c.scx, c.scy, c.wx, c.wy)));
+    }
+    Ok(())
+}
+
+fn core_layer(rec: &mut Rec) {
+    let jit_ok = rec.ctx.nshards < 4 || rec.ctx.shard % 2 == 0;
+    let cases = rec.ctx.tier.pick(10u32, 1500);
+    let strat = (case_strategy(), 0u8..3, any::<bool>());
+    fn to_json(v: &(Case, u8, bool)) -> Value {
+        core_json(&v.0, v.1, v.2)
+    }
+    run_generated(rec, "coreframes", cases, strat, to_json, |(c, mode, via_dma), rec, counting| {
+        let mode = if *mode == 2 && !jit_ok { 1 } else { *mode };
+        if counting {
+            rec.current(&core_json(c, mode, *via_dma).to_string());
+        }
+        exec_core(c, mode, *via_dma, rec, counting)
+    });
+}
+
 fn run(rec: &mut Rec) {
     let rom = std_rom();
     let mut ms = Machines { a: i::M::new(&rom), b: i::M::new(&rom) };
@@ -347,12 +461,29 @@ fn run(rec: &mut Rec) {
         }
         exec(&mut cell.borrow_mut(), c, rec, counting)
     });
+    core_layer(rec);
     rec.sample(|| {
         case_json(&Case { vram_seed: 1, vram_kind: 2, oam: vec![[16, 8, 3, 0], [20, 12, 2, 0x80]], lcdc: 0xf7, scx: 3, scy: 250, wx: 87, wy: 40, bgp: 0xe4, obp0: 0xe4, obp1: 0x1b, cuts: vec![0x8000], pre: vec![] })
     });
 }
 
 fn replay(case: &Value, rec: &mut Rec) {
+    if case.get("kind").and_then(|k| k.as_str()) == Some("core-frame") {
+        let c: Case = match case.get("case").cloned().and_then(|v| serde_json::from_value(v).ok()) {
+            Some(c) => c,
+            None => {
+                rec.inconclusive("replay case is not a C15 frame");
+                return;
+            }
+        };
+        let mode = case.get("mode").and_then(|v| v.as_u64()).unwrap_or(0) as u8 % 3;
+        let via_dma = case.get("via_dma").and_then(|v| v.as_bool()).unwrap_or(false);
+        rec.current(&case.to_string());
+        if let Err(f) = exec_core(&c, mode, via_dma, rec, true) {
+            rec.violation(&f.sig, core_json(&c, mode, via_dma), f.detail);
+        }
+        return;
+    }
     let c: Case = match case.get("case").cloned().and_then(|v| serde_json::from_value(v).ok()) {
         Some(c) => c,
         None => {
